@@ -1317,9 +1317,9 @@ def check_program(ctx, stream, prog, sess, src=None, local_only=()):
             ctx.count("impl/converted")
         nontriv = nontriv or o["conv"] or m["offer"]
         if m["ok"] and m["tame"] and m["g"]:
-            ctx.count("stmt-under-the-partial-theorem (all reads bound, no known mechanism before it)")
+            ctx.count("stmt-under-the-theorem (all reads bound; no unrepaired mechanism before it)")
             if m["offer"] or (m["shadow"] and m["builtin"]):
-                raise common.InfraError(f"the Lean model contradicts C02_python_wins_partial on\n{src}\nat: {text}")
+                raise common.InfraError(f"the Lean model contradicts C02_python_wins_gen on\n{src}\nat: {text}")
         # ---- correspondence
         if o["conv"] and not m["offer"]:
             ctx.disagree(stream, c1, "converted to a subprocess call", "model: every is_in_scope test succeeds")
